@@ -7,6 +7,7 @@ import (
 	"math/rand"
 	"os"
 	"reflect"
+	"sort"
 	"strconv"
 	"strings"
 
@@ -451,49 +452,60 @@ func normReplay(args []string) int {
 				rep.classify(raw, c.Exp.Ideal, c.Exp.Alts, eqNorm(out), func() interface{} { return out }, "normalize/"+repr)
 				continue
 			}
-			// map-like representations: the visiting order is the runtime's choice
+			// map-like representations: a map is visited in the order of its key strings, so the outcome is ONE
+			// (C09: every repetition, whatever order the runtime enumerates the map in) - the order-free result, or
+			// under the listed deviation the result of visiting the entries in sorted order
+			var sorted json.RawMessage
+			for _, o := range c.Orders {
+				var oo struct {
+					Perm []int           `json:"perm"`
+					Out  json.RawMessage `json:"out"`
+				}
+				if json.Unmarshal(o, &oo) != nil || len(oo.Perm) != len(c.Gv.Es) {
+					continue
+				}
+				isSorted := true
+				for i := 1; i < len(oo.Perm); i++ {
+					if segKey(c.Gv.Es[oo.Perm[i-1]-1].Key) >= segKey(c.Gv.Es[oo.Perm[i]-1].Key) {
+						isSorted = false
+					}
+				}
+				if isSorted {
+					sorted = oo.Out
+				}
+			}
 			var first *normOutcome
-			inOrders := true
-			isIdeal := true
+			same := true
 			for k := 0; k < *repeat; k++ {
 				out, refeed := runNorm(c.Gv, c.Pol, repr, rng)
 				if refeed != "" {
 					rep.violate("not-idempotent/"+repr, raw, refeed, nil, "")
-					first = nil
+					first, same = nil, false
 					break
-				}
-				eq := eqNorm(out)
-				if !eq(c.Exp.Ideal) {
-					isIdeal = false
-					found := false
-					for _, o := range c.Orders {
-						if eq(o) {
-							found = true
-						}
-					}
-					if !found {
-						var want interface{}
-						json.Unmarshal(c.Exp.Ideal, &want)
-						rep.violate("normalize/"+repr, raw, out, want, "not the order-free result and not a result of any visiting order under the listed deviation")
-						inOrders = false
-						first = nil
-						break
-					}
 				}
 				if first == nil {
 					o := out
 					first = &o
+				} else if !reflect.DeepEqual(*first, out) {
+					rep.violate("order-dependent/"+repr, raw, []interface{}{*first, out}, "one outcome for every repetition",
+						"the outcome of creating a config from a map depends on the order in which the runtime enumerates it")
+					same = false
+					break
 				}
 			}
-			if first == nil && !inOrders {
+			if first == nil || !same {
 				continue
 			}
-			if first != nil {
-				if isIdeal {
-					rep.okIdeal()
-				} else {
-					rep.okKnown([]string{"DupDependsOnOrder"}, raw)
-				}
+			eq := eqNorm(*first)
+			switch {
+			case eq(c.Exp.Ideal):
+				rep.okIdeal()
+			case sorted != nil && eq(sorted):
+				rep.okKnown([]string{"DupDependsOnOrder"}, raw)
+			default:
+				var want interface{}
+				json.Unmarshal(c.Exp.Ideal, &want)
+				rep.violate("normalize/"+repr, raw, *first, want, "not the order-free result and not the result of visiting the entries in the order of their keys under the listed deviation")
 			}
 		}
 	}, rep)
@@ -565,6 +577,22 @@ func goOfTree(rng *rand.Rand, t *tree) *gval {
 	return g
 }
 
+// sortEntries orders the entries of every map of the input by their key strings.
+func sortEntries(g *gval) {
+	if g == nil {
+		return
+	}
+	if g.G == "m" {
+		sort.SliceStable(g.Es, func(i, j int) bool { return segKey(g.Es[i].Key) < segKey(g.Es[j].Key) })
+		for i := range g.Es {
+			sortEntries(g.Es[i].Val)
+		}
+	}
+	for _, x := range g.Xs {
+		sortEntries(x)
+	}
+}
+
 func normDrive(args []string) int {
 	fs := flag.NewFlagSet("norm", flag.ExitOnError)
 	seed := fs.Int64("seed", 1, "seed")
@@ -603,8 +631,12 @@ func normDrive(args []string) int {
 		if repr != "struct" {
 			r = rng
 		}
+		if repr != "struct" {
+			// a map is visited in the order of its key strings: the recorded input lists the entries in that order
+			sortEntries(g)
+		}
 		out, refeed := runNorm(g, pol, repr, r)
-		ev := map[string]interface{}{"gv": g, "pol": pol, "repr": repr, "exact_order": repr == "struct"}
+		ev := map[string]interface{}{"gv": g, "pol": pol, "repr": repr, "exact_order": true}
 		switch {
 		case refeed != "":
 			ev["out"] = map[string]interface{}{"err": "not idempotent: " + refeed}
